@@ -92,4 +92,230 @@ theorem run_sjoin : ∀ (as : List (List Char)) (a : List Char) (done : List (Li
     · simp
     · intro x hx; exact h x (by simp at hx ⊢; right; exact hx)
 
+/-! ## safesplit round trip -/
+
+theorem readContent_nil (cur : List Byte) : readContent cur [] = (cur, []) := by rw [readContent]
+
+theorem readContent_cons (cur : List Byte) (c : Byte) (rest : List Byte) :
+    readContent cur (c :: rest) =
+      if c = 92 then
+        match rest with
+        | n :: rest' => if isBlank n then readContent (n :: cur) rest' else readContent (c :: cur) (n :: rest')
+        | [] => (c :: cur, [])
+      else if isBlank c then
+        if (skipSp rest).head? = some 45 then (cur, skipSp rest)
+        else readContent (32 :: cur) (skipSp rest)
+      else readContent (c :: cur) rest := by
+  rw [readContent.eq_def]
+  rfl
+
+theorem isBlank_92 : isBlank 92 = false := by decide
+theorem isBlank_45 : isBlank 45 = false := by decide
+theorem isBlank_32 : isBlank 32 = true := by decide
+
+theorem skipSp_nonblank (c : Byte) (l : List Byte) (h : isBlank c = false) : skipSp (c :: l) = c :: l := by
+  simp [skipSp, h]
+
+/-- head of an escaped content is never an unescaped blank, and is `-` only if the content starts with `-` -/
+theorem escBlank_head_not_blank (cs : List Byte) (rest : List Byte) :
+    ∀ n l, escBlank cs ++ rest = n :: l → cs ≠ [] → isBlank n = false := by
+  intro n l h hne
+  cases cs with
+  | nil => exact absurd rfl hne
+  | cons d ds =>
+    unfold escBlank at h
+    split at h
+    · simp at h; rw [← h.1]; exact isBlank_92
+    · rename_i hb; simp at h; rw [← h.1]; simpa using hb
+
+def sepOK (rest : List Byte) : Prop := rest = [] ∨ ∃ r, rest = 32 :: 45 :: r
+
+theorem readContent_esc (content : List Byte) :
+    ∀ (cur rest : List Byte), content.getLast? ≠ some 92 → sepOK rest →
+      readContent cur (escBlank content ++ rest) = (content.reverse ++ cur, rest.tail) := by
+  induction content with
+  | nil =>
+    intro cur rest _ hs
+    rcases hs with h | ⟨r, h⟩
+    · subst h; simp [escBlank, readContent_nil]
+    · subst h
+      simp only [escBlank, List.nil_append]
+      rw [readContent_cons]
+      simp [isBlank_32, skipSp_nonblank 45 r isBlank_45]
+  | cons c cs ih =>
+    intro cur rest hl hs
+    have hl' : cs.getLast? ≠ some 92 := by
+      cases cs with
+      | nil => simp
+      | cons d ds => simpa [List.getLast?_cons_cons] using hl
+    by_cases hb : isBlank c = true
+    · -- escaped blank
+      have : escBlank (c :: cs) = 92 :: c :: escBlank cs := by simp [escBlank, hb]
+      rw [this]
+      simp only [List.cons_append]
+      rw [readContent_cons]
+      simp only [if_true, hb]
+      rw [ih (c :: cur) rest hl' hs]
+      simp
+    · have hb' : isBlank c = false := by simpa using hb
+      have : escBlank (c :: cs) = c :: escBlank cs := by simp [escBlank, hb']
+      rw [this]
+      simp only [List.cons_append]
+      rw [readContent_cons]
+      by_cases h92 : c = 92
+      · subst h92
+        simp only [if_true]
+        -- cs is non-empty (else the content would end in a backslash) and its escaped form starts with a non-blank
+        cases hcs : escBlank cs ++ rest with
+        | nil =>
+          exfalso
+          cases cs with
+          | nil => simp at hl
+          | cons d ds =>
+            unfold escBlank at hcs; split at hcs <;> simp at hcs
+        | cons n l =>
+          have hne : cs ≠ [] := by
+            intro h; subst h; simp at hl
+          have hnb := escBlank_head_not_blank cs rest n l hcs hne
+          simp only [hnb, Bool.false_eq_true, if_false]
+          rw [← hcs, ih (92 :: cur) rest hl' hs]
+          simp
+      · simp only [h92, if_false, hb', Bool.false_eq_true]
+        rw [ih (c :: cur) rest hl' hs]
+        simp
+
+
+def push (acc : List (List Byte)) (cur : List Byte) : List (List Byte) :=
+  if cur.isEmpty then acc else acc ++ [trimSpace cur.reverse]
+
+theorem flagsLoop_nil (acc : List (List Byte)) (cur : List Byte) : flagsLoop acc cur [] = push acc cur := by
+  rw [flagsLoop.eq_def]; rfl
+
+theorem flagsLoop_cons2 (acc : List (List Byte)) (cur : List Byte) (a c : Byte) (l2 : List Byte) :
+    flagsLoop acc cur (a :: c :: l2) =
+      if (skipSp l2).head? = some 45 then flagsLoop (push acc cur) [c, 45] (skipSp l2)
+      else flagsLoop (push acc cur) (readContent [c, 45] (skipSp l2)).1 (readContent [c, 45] (skipSp l2)).2 := by
+  rw [flagsLoop.eq_def]; rfl
+
+theorem flagsLoop_flag (acc : List (List Byte)) (cur : List Byte) (f : Flag) (tail : List Byte)
+    (hs : sepOK tail) (h1 : f.content.head? ≠ some 45) (h2 : f.content.getLast? ≠ some 92) :
+    flagsLoop acc cur (f.render ++ tail) = flagsLoop (push acc cur) f.bytes.reverse tail.tail := by
+  obtain ⟨c, content⟩ := f
+  simp only [Flag.render, Flag.bytes, List.cons_append] at *
+  rw [flagsLoop_cons2]
+  cases content with
+  | nil =>
+    simp only [escBlank, List.nil_append]
+    rcases hs with h | ⟨r, h⟩
+    · subst h
+      simp [skipSp, readContent_nil]
+    · subst h
+      simp [skipSp, isBlank_32, isBlank_45]
+  | cons d ds =>
+    have hne : (d :: ds) ≠ [] := by simp
+    cases hcs : escBlank (d :: ds) ++ tail with
+    | nil => unfold escBlank at hcs; split at hcs <;> simp at hcs
+    | cons n l =>
+      have hnb := escBlank_head_not_blank (d :: ds) tail n l hcs hne
+      have hn45 : n ≠ 45 := by
+        unfold escBlank at hcs
+        split at hcs
+        · simp at hcs; rw [← hcs.1]; decide
+        · simp at hcs; rw [← hcs.1]; simpa using h1
+      rw [skipSp_nonblank n l hnb]
+      have : ¬ ((n :: l).head? = some 45) := by simpa using hn45
+      simp only [this, if_false]
+      rw [← hcs, readContent_esc (d :: ds) [c, 45] tail h2 hs]
+      simp
+
+theorem joinFlags_sepOK (g : Flag) (fs : List Flag) : sepOK (32 :: joinFlags (g :: fs)) := by
+  right
+  cases fs with
+  | nil => exact ⟨_, by simp only [joinFlags, Flag.render]; rfl⟩
+  | cons h hs => exact ⟨_, by simp only [joinFlags, Flag.render, List.cons_append]; rfl⟩
+
+theorem flagsLoop_join : ∀ (fs : List Flag) (f : Flag) (acc : List (List Byte)) (cur : List Byte),
+    (∀ g ∈ f :: fs, g.WF) →
+    flagsLoop acc cur (joinFlags (f :: fs)) = push acc cur ++ (f :: fs).map Flag.bytes := by
+  intro fs
+  induction fs with
+  | nil =>
+    intro f acc cur h
+    have hf := h f (by simp)
+    have := flagsLoop_flag acc cur f [] (Or.inl rfl) hf.1 hf.2.1
+    simp only [List.append_nil] at this
+    simp only [joinFlags, this, List.tail_nil, flagsLoop_nil]
+    have hb : f.bytes.reverse.isEmpty = false := by simp [Flag.bytes]
+    simp [push, hb, hf.2.2]
+  | cons g gs ih =>
+    intro f acc cur h
+    have hf := h f (by simp)
+    simp only [joinFlags]
+    rw [flagsLoop_flag acc cur f _ (joinFlags_sepOK g gs) hf.1 hf.2.1]
+    simp only [List.tail_cons]
+    rw [ih g (push acc cur) f.bytes.reverse (fun x hx => h x (by simp at hx ⊢; right; exact hx))]
+    have hb : f.bytes.reverse.isEmpty = false := by simp [Flag.bytes]
+    simp [push, hb, hf.2.2]
+
+
+/-! ## tag de-duplication -/
+
+theorem dedup_spec (l : List (List Char)) : ∀ seen : List (List Char),
+    (dedup seen l).Nodup ∧ (∀ x, x ∈ dedup seen l ↔ (x ∈ l ∧ x ∉ seen)) := by
+  induction l with
+  | nil => intro seen; simp [dedup]
+  | cons t ts ih =>
+    intro seen
+    unfold dedup
+    by_cases h : seen.contains t = true
+    · simp only [h, if_true]
+      have := ih seen
+      refine ⟨this.1, ?_⟩
+      intro x
+      rw [this.2]
+      have ht : t ∈ seen := by simpa using h
+      constructor
+      · intro ⟨h1, h2⟩; exact ⟨by simp [h1], h2⟩
+      · intro ⟨h1, h2⟩
+        simp at h1
+        rcases h1 with h1 | h1
+        · subst h1; exact absurd ht h2
+        · exact ⟨h1, h2⟩
+    · simp only [h, Bool.false_eq_true, if_false]
+      have ht : t ∉ seen := by simpa using h
+      have := ih (t :: seen)
+      refine ⟨?_, ?_⟩
+      · rw [List.nodup_cons]
+        refine ⟨?_, this.1⟩
+        intro hm
+        have := (this.2 t).mp hm
+        simp at this
+      · intro x
+        simp only [List.mem_cons]
+        rw [this.2]
+        constructor
+        · rintro (h1 | ⟨h1, h2⟩)
+          · subst h1; exact ⟨Or.inl rfl, ht⟩
+          · simp at h2; exact ⟨Or.inr h1, h2.2⟩
+        · intro ⟨h1, h2⟩
+          by_cases hx : x = t
+          · exact Or.inl hx
+          · rcases h1 with h1 | h1
+            · exact absurd h1 hx
+            · exact Or.inr ⟨h1, by simp [hx, h2]⟩
+
+/-! ## unterminated quotes -/
+
+theorem run_inq_open (a : List Char) : ∀ (args : List (List Char)) (cur : List Char),
+    (run { args := args, cur := cur, inQ := true, q := '"', has := true } (esc a)).inQ = true := by
+  induction a with
+  | nil => intro args cur; simp [esc, run_nil]
+  | cons c cs ih =>
+    intro args cur
+    by_cases h1 : c = '"'
+    · subst h1; simp [esc, run_cons, step, ih]
+    · by_cases h2 : c = '\\'
+      · subst h2; simp [esc, run_cons, step, ih]
+      · simp [esc, h1, h2, run_cons, step, ih]
+
 end LlgoVerif.Shell
